@@ -13,16 +13,37 @@
      sections (file types that hold sections) consecutive at 4-aligned offsets, header <= size,
               size within the file; a firmware-volume-image section holds a valid volume of exactly
               its body size (recursively, depth fuel).
-   Compressed (GUID-defined) section payloads are not opened.  The flash-descriptor level is not
-   modelled (property C12).  No proofs here. *)
+              a GUID-defined section with the processing-required bit whose GUID is the LZMA or the
+              ZLIB codec is opened with the codec oracle [dec]: the payload must decode and the
+              decoded bytes must again be a valid sequence of sections (recursively, depth fuel).
+   LZMA+x86 and Brotli payloads are not opened.  The flash-descriptor level is not modelled
+   (property C12).  No proofs here. *)
 From Fiano Require Import Base.Bytes Model.Ffs.
 Open Scope Z_scope.
 
 Definition all_eq (v : Z) (b : bytes) : bool := forallb (fun x => x =? v) b.
 
 Section Reader.
-(* the reader for a nested volume (next smaller depth) *)
+(* the readers for a nested volume and for the decoded payload of a compressed section (next
+   smaller depth), and the codec oracle *)
 Variable vfv : bytes -> bool.
+Variable venc : bytes -> bool.
+Variable dec : Z -> bytes -> option bytes.
+
+(* the GUID-defined section at [off] (header [hl], size [size]) of [b] *)
+Definition v_guided (b : bytes) (off hl size : Z) : bool :=
+  if size <? hl + 20 then false else
+  let g := sub (off + hl) 16 b in
+  let doff := rd (off + hl + 16) 2 b in
+  let attrs := rd (off + hl + 18) 2 b in
+  let k := codec_kind g in
+  if negb (Z.land attrs 1 =? 0) && ((k =? 1) || (k =? 3)) then
+    if size <? doff then false else
+    match dec k (sub (off + doff) (size - doff) b) with
+    | Some e => venc e
+    | None => false
+    end
+  else true.
 
 (* sections of file [b] from offset [off] (relative to the file, 4-aligned) *)
 Fixpoint v_sections (fuel : nat) (b : bytes) (off : Z) : bool :=
@@ -39,6 +60,7 @@ Fixpoint v_sections (fuel : nat) (b : bytes) (off : Z) : bool :=
     let size := if big then rd (off + 4) 4 b else size3 in
     (hl <=? size) && (off + size <=? zlen b) &&
     (if t =? 23 then vfv (sub (off + hl) (size - hl) b) else true) &&
+    (if t =? 2 then v_guided b off hl size else true) &&
     v_sections k b (align4 (off + size))
   end.
 
@@ -92,8 +114,11 @@ Fixpoint v_blocks_sum (fuel : nat) (v : bytes) (off : Z) : option (Z * Z) :=
          end
   end.
 
+Section Knot.
+Variable dec : Z -> bytes -> option bytes.
+
 (* a volume starting at the head of [v]; [exact]: [v] must be exactly the volume *)
-Fixpoint valid_fv (d : nat) (exact : bool) (v : bytes) : bool :=
+Fixpoint valid_fv (d : nat) (exact : bool) (v : bytes) {struct d} : bool :=
   match d with
   | O => false
   | S d' =>
@@ -113,8 +138,15 @@ Fixpoint valid_fv (d : nat) (exact : bool) (v : bytes) : bool :=
     let doff := align8 (if eho =? 0 then hdrlen else eho + rd (eho + 16) 4 v) in
     if supported_fv (sub 16 16 v) then
       (doff <=? len) &&
-      v_files (valid_fv d' true) (S (Z.to_nat len)) (fv_polarity (rd 44 4 v)) (sub 0 len v) doff
+      v_files (valid_fv d' true) (valid_enc d') dec (S (Z.to_nat len)) (fv_polarity (rd 44 4 v))
+              (sub 0 len v) doff
     else true
+  end
+(* the decoded payload of a compressed section: sections from offset 0 *)
+with valid_enc (d : nat) (e : bytes) {struct d} : bool :=
+  match d with
+  | O => false
+  | S d' => v_sections (valid_fv d' true) (valid_enc d') dec (S (Z.to_nat (zlen e))) e 0
   end.
 
 (* a BIOS region: volumes at 8-aligned offsets, anything in between *)
@@ -129,3 +161,5 @@ Fixpoint v_region (d : nat) (fuel : nat) (b : bytes) (off : Z) : bool :=
   end.
 
 Definition valid_image (d : nat) (b : bytes) : bool := v_region d (S (Z.to_nat (zlen b))) b 0.
+
+End Knot.
